@@ -447,6 +447,30 @@ static void extendForMix(Rng &r, RouterGenCfg &g, bool forC20) {
         g.styleExtra = "pins";
     }
 }
+// pins + pin-attached ends for other generators (C03 validity of pin-attached routes)
+void addPinOps(RouterGenCfg &g, bool zeroInside) {
+    g.polygons = false; g.gap = std::max(g.gap, 30.0); g.endMargin = std::max(g.endMargin, 2.0);
+    g.pinHook = [zeroInside](SceneGen &sg, int id, Json &o) { genPins(sg, id, o, zeroInside); };
+    auto capacity = std::make_shared<std::map<std::pair<int, int>, int>>();
+    g.endHook = [capacity](SceneGen &sg, Json &e, SceneGen::GC &c, int k) -> bool {
+        Rng &rr = sg.r;
+        if (!rr.chance(0.6)) return false;
+        std::vector<int> ids; for (auto &kv : sg.shapes) if (kv.second.alive && !kv.second.pins.empty() && kv.first != c.shapeEnd[0]) ids.push_back(kv.first);
+        if (ids.empty()) return false;
+        int sid = rr.pick(ids); int cls = rr.range(1, 3);
+        int cap = cls == 1 ? 4 : cls == 2 ? 100 : 1;
+        if ((*capacity)[{sid, cls}] >= cap) return false;
+        (*capacity)[{sid, cls}]++;
+        e = Json::obj(); e.set("shape", sid); e.set("cls", cls);
+        c.freeEnd[k] = false; c.shapeEnd[k] = sid; c.clsEnd[k] = cls;
+        sg.shapes[sid].attached++;
+        return true;
+    };
+    g.allowDeleteAttached = false;
+    g.pinsGeometry = true;
+    g.styleExtra = g.styleExtra.empty() ? "pins" : g.styleExtra + "+pins";
+}
+
 // junctions as ordinary scene objects (free-standing junctions with connectors attached): add, move, delete in any order,
 // including move + delete of one junction inside one transaction
 void addJunctionOps(RouterGenCfg &g, double pEnd) {
